@@ -8,26 +8,27 @@ import ChibiVerif.Lemmas.LinkageDecls
 import ChibiVerif.Lemmas.LinkageClosure
 import ChibiVerif.Lemmas.LinkageUses
 import ChibiVerif.Lemmas.LinkageObjSym
+import ChibiVerif.Lemmas.LinkageFlags
 
 namespace ChibiVerif.Linkage
 open ChibiVerif.Spec.Linkage
 
+variable [Rules]
+
 /-- what the theorem assumes about the unit -/
 structure UnitOK (ds : List Decl) : Prop where
   valid : valid ds = true
-  ordered : refsOrdered ds [] [] = true
   objs : ∀ x, x ∈ objNames ds → ObjOK ds x
-  noFrozen : flagsFrozenDefRegion ds = false
-  noDeadSL : deadStaticLocalVisibleRegion ds = false
+  noFrozen : Rules.flagsFollow = true ∨ flagsFrozenDefRegion ds = false
+  noDeadSL : Rules.ownedData = true ∨ deadStaticLocalVisibleRegion ds = false
 
 section
 variable {ds : List Decl} (u : UnitOK ds)
 include u
 
-theorem UnitOK.fnValid {f : Name} (hf : f ∈ fnNames ds) : fnValid (fnDecls ds f) = true := by
-  have := u.valid
-  simp only [Spec.Linkage.valid, Bool.and_eq_true, List.all_eq_true] at this
-  exact this.1.1.1.1 f hf
+theorem UnitOK.ordered : refsOrdered ds [] [] = true := valid_ordered u.valid
+
+theorem UnitOK.fnValid {f : Name} (hf : f ∈ fnNames ds) : fnValid (fnDecls ds f) = true := (valid_parts u.valid).1 f hf
 
 theorem UnitOK.oneBody (f : Name) : ((fnDecls ds f).filter (fun d => d.body.isSome)).length ≤ 1 := by
   by_cases hf : f ∈ fnNames ds
@@ -37,20 +38,21 @@ theorem UnitOK.oneBody (f : Name) : ((fnDecls ds f).filter (fun d => d.body.isSo
   · rw [mem_fnNames, Classical.not_not] at hf
     rw [hf]; exact Nat.zero_le _
 
-theorem UnitOK.disjoint {f : Name} (hf : f ∈ fnNames ds) : f ∉ objNames ds ∧ f ∉ blockExternNames ds := by
-  have := u.valid
-  simp only [Spec.Linkage.valid, Bool.and_eq_true, List.all_eq_true] at this
-  have h := this.1.1.2 f hf
-  simpa using h
+theorem UnitOK.disjoint {f : Name} (hf : f ∈ fnNames ds) : f ∉ objNames ds ∧ f ∉ blockExternNames ds :=
+  (valid_parts u.valid).2.2.1 f hf
 
-theorem UnitOK.class_eq {f : Name} (hf : f ∈ fnNames ds) (hdef : fnDefined (fnDecls ds f) = true) :
-    fnClass (fnDecls ds f) = fnClassFirst (fnDecls ds f) := by
-  have := u.noFrozen
-  unfold flagsFrozenDefRegion at this
-  rw [List.any_eq_false] at this
-  have h := this f hf
-  rw [hdef] at h
-  simpa using h
+/-- the recorded flags of a defined function encode its C11 class -/
+theorem UnitOK.class_flags {f : Name} (hf : f ∈ fnNames ds) (hdef : fnDefined (fnDecls ds f) = true) {S I : Bool}
+    (hfl : fnFlags ds f = some (S, I)) : classOf S I = fnClass (fnDecls ds f) := by
+  refine fnFlags_class (u.fnValid hf) ?_ hfl
+  rcases u.noFrozen with h | h
+  · exact Or.inl h
+  · right
+    unfold flagsFrozenDefRegion at h
+    rw [List.any_eq_false] at h
+    have h' := h f hf
+    rw [hdef] at h'
+    simpa using h'
 
 theorem UnitOK.succ_closed {x : Name} (_ : x ∈ fnNames ds) {y : Name} (hy : y ∈ succFns ds x) : y ∈ fnNames ds := by
   unfold succFns at hy
@@ -95,8 +97,8 @@ theorem recorded {ds : List Decl} {st : PState} (h : declAll {} ds = .ok st) (f 
     isFn st.globals f = (firstFlags ds f).isSome ∧
     refsOf st.globals f = allBodyRefs ds f ∧
     (f ∈ rootNames st.globals ↔
-      ∃ stc inl, firstFlags ds f = some (stc, inl) ∧ (!(stc && inl) || fileRooted ds false f) = true) ∧
-    (∀ o, findFunc st.globals f = some o → firstFlags ds f = some (o.isStatic, o.isInline)) := by
+      ∃ stc inl, fnFlags ds f = some (stc, inl) ∧ (!(stc && inl) || fileRooted ds false f) = true) ∧
+    (∀ o, findFunc st.globals f = some o → fnFlags ds f = some (o.isStatic, o.isInline)) := by
   have hT := T_parse h f
   have hn := (wf_declAll h).nodup
   have hflags : ∀ o, findFunc st.globals f = some o → T st.globals f = some (fview o) := by
@@ -104,11 +106,17 @@ theorem recorded {ds : List Decl} {st : PState} (h : declAll {} ds = .ok st) (f 
   rw [isFn_eq_T, refsOf_eq_T, mem_rootNames_iff_T hn]
   rw [hT] at hflags ⊢
   obtain ⟨hnone, hsome⟩ := evolve_none ds f
-  cases hff : firstFlags ds f with
+  cases hff : fnFlags ds f with
   | none =>
-    rw [hnone hff] at hflags ⊢
-    refine ⟨rfl, ?_, ?_, ?_⟩
-    · rw [allBodyRefs_undeclared ds f hff]; rfl
+    have hff1 : firstFlags ds f = none := by
+      have := fnFlags_isSome ds f
+      rw [hff] at this
+      cases h : firstFlags ds f with
+      | none => rfl
+      | some _ => rw [h] at this; cases this
+    rw [hnone hff1] at hflags ⊢
+    refine ⟨by rw [hff1]; rfl, ?_, ?_, ?_⟩
+    · rw [allBodyRefs_undeclared ds f hff1]; rfl
     · constructor
       · rintro ⟨v, hv, _⟩; cases hv
       · rintro ⟨_, _, hx, _⟩; cases hx
@@ -116,8 +124,9 @@ theorem recorded {ds : List Decl} {st : PState} (h : declAll {} ds = .ok st) (f 
   | some p =>
     obtain ⟨stc, inl⟩ := p
     obtain ⟨v', hv', hs, hi, hr, hroot⟩ := hsome stc inl hff
+    have hff1 : (firstFlags ds f).isSome = true := by rw [← fnFlags_isSome, hff]; rfl
     rw [hv'] at hflags ⊢
-    refine ⟨rfl, ?_, ?_, ?_⟩
+    refine ⟨by rw [hff1]; rfl, ?_, ?_, ?_⟩
     · simp [hr]
     · constructor
       · rintro ⟨v, hv, hvr⟩
@@ -139,7 +148,7 @@ inductive ReachDL (ds : List Decl) : Name → Name → Prop where
 
 theorem live_decl {ds : List Decl} {st : PState} {gs1 gs : List Obj} (p : Parsed ds st gs1 gs) (f : Name) :
     liveFn gs1 f = true ↔
-      ∃ r stc inl, firstFlags ds r = some (stc, inl) ∧ (!(stc && inl) || fileRooted ds false r) = true ∧ ReachDL ds r f := by
+      ∃ r stc inl, fnFlags ds r = some (stc, inl) ∧ (!(stc && inl) || fileRooted ds false r) = true ∧ ReachDL ds r f := by
   have h := p.hst
   have conv : ∀ a b, Reach st.globals a b ↔ ReachDL ds a b := by
     intro a b
@@ -164,12 +173,6 @@ theorem live_decl {ds : List Decl} {st : PState} {gs1 gs : List Obj} (p : Parsed
 
 /-! ### live ↔ needed -/
 
-theorem fnClassFirst_ne_ifNeeded {D : List FnDecl} {d : FnDecl} {rest : List FnDecl} (hD : D = d :: rest) :
-    (fnClassFirst D != .localIfNeeded) = !((effFlags d).1 && (effFlags d).2) := by
-  subst hD
-  simp only [fnClassFirst, effFlags]
-  cases d.isStatic <;> cases d.isInline <;> cases d.isExtern <;> rfl
-
 section
 variable {ds : List Decl} (u : UnitOK ds)
 include u
@@ -187,46 +190,43 @@ theorem UnitOK.reachS_of_reachDL {r x : Name} (h : ReachDL ds r x) : ReachS (suc
   | refl _ => exact ReachS.refl
   | step _ hm _ ih => exact ReachS.step ih (by rw [← u.allBodyRefs_succ]; exact hm)
 
+omit u in
+theorem fnFlags_of_declared {r : Name} (hr : r ∈ fnNames ds) : ∃ S I, fnFlags ds r = some (S, I) := by
+  have h1 := firstFlags_isSome.mpr hr
+  rw [← fnFlags_isSome] at h1
+  cases h : fnFlags ds r with
+  | none => rw [h] at h1; cases h1
+  | some p => exact ⟨p.1, p.2, rfl⟩
+
 /-- a seed of the Spec's closure is a root of chibicc's -/
 theorem UnitOK.root_of_seed {r : Name} (h : r ∈ alwaysEmitted ds ∨ r ∈ fileFnRefs ds) :
-    r ∈ fnNames ds ∧ ∃ stc inl, firstFlags ds r = some (stc, inl) ∧ (!(stc && inl) || fileRooted ds false r) = true := by
+    r ∈ fnNames ds ∧ ∃ stc inl, fnFlags ds r = some (stc, inl) ∧ (!(stc && inl) || fileRooted ds false r) = true := by
   have hr : r ∈ fnNames ds := u.seeds_declared (by rw [mem_dedup, List.mem_append]; exact h)
   refine ⟨hr, ?_⟩
-  have hne := mem_fnNames.mp hr
-  cases hD : fnDecls ds r with
-  | nil => exact absurd hD hne
-  | cons d rest =>
-    have hff : firstFlags ds r = some (effFlags d) := by rw [firstFlags_eq, hD]; rfl
-    refine ⟨(effFlags d).1, (effFlags d).2, hff, ?_⟩
-    rcases h with h | h
-    · have := (List.mem_filter.mp h).2
-      simp only [Bool.and_eq_true] at this
-      rw [u.class_eq hr this.1, fnClassFirst_ne_ifNeeded hD] at this
-      rw [this.2]; rfl
-    · rw [fileRooted_eq ds [] [] false r u.ordered (fun h => by cases h)]
-      have : (fileFnRefs ds).contains r = true := by simpa using h
-      rw [this]; simp
+  obtain ⟨S, I, hff⟩ := fnFlags_of_declared (ds := ds) hr
+  refine ⟨S, I, hff, ?_⟩
+  rcases h with h | h
+  · have := (List.mem_filter.mp h).2
+    simp only [Bool.and_eq_true] at this
+    rw [← u.class_flags hr this.1 hff, classOf_ne_ifNeeded] at this
+    rw [this.2]; rfl
+  · rw [fileRooted_eq ds [] [] false r u.ordered (fun h => by cases h)]
+    have : (fileFnRefs ds).contains r = true := by simpa using h
+    rw [this]; simp
 
 /-- a root of chibicc's closure that is defined is a seed of the Spec's -/
-theorem UnitOK.seed_of_root {r : Name} {stc inl : Bool} (hff : firstFlags ds r = some (stc, inl))
+theorem UnitOK.seed_of_root {r : Name} {stc inl : Bool} (hff : fnFlags ds r = some (stc, inl))
     (hc : (!(stc && inl) || fileRooted ds false r) = true) (hdef : fnDefined (fnDecls ds r) = true) :
     r ∈ alwaysEmitted ds ∨ r ∈ fileFnRefs ds := by
-  have hr : r ∈ fnNames ds := firstFlags_isSome.mp (by rw [hff]; rfl)
+  have hr : r ∈ fnNames ds := firstFlags_isSome.mp (by rw [← fnFlags_isSome, hff]; rfl)
   simp only [Bool.or_eq_true] at hc
   rcases hc with hc | hc
   · left
     unfold alwaysEmitted
     rw [List.mem_filter]
     refine ⟨hr, ?_⟩
-    rw [hdef, Bool.true_and, u.class_eq hr hdef]
-    cases hD : fnDecls ds r with
-    | nil => exact absurd hD (mem_fnNames.mp hr)
-    | cons d rest =>
-      rw [← hD, fnClassFirst_ne_ifNeeded hD]
-      rw [firstFlags_eq, hD] at hff
-      simp only [List.head?_cons, Option.map_some, Option.some.injEq] at hff
-      rw [hff]
-      exact hc
+    rw [hdef, Bool.true_and, ← u.class_flags hr hdef hff, classOf_ne_ifNeeded]
+    exact hc
   · right
     rw [fileRooted_eq ds [] [] false r u.ordered (fun h => by cases h)] at hc
     simpa using hc
@@ -286,40 +286,32 @@ theorem UnitOK.fnSymbol_defined {st : PState} (hst : declAll {} ds = .ok st) {f 
     fnSymbol ds f =
       if (neededList ds).contains f then some ⟨.named f, if o0.isStatic then .local else .global, .text, none, 0⟩ else none := by
   have hff := (recorded hst f).2.2.2 o0 h0
-  have hr : f ∈ fnNames ds := firstFlags_isSome.mp (by rw [hff]; rfl)
-  cases hDD : fnDecls ds f with
-  | nil => exact absurd hDD (mem_fnNames.mp hr)
-  | cons d rest =>
-    rw [firstFlags_eq, hDD] at hff
-    simp only [List.head?_cons, Option.map_some, Option.some.injEq, effFlags, Prod.mk.injEq] at hff
-    have hcls := u.class_eq hr hD
-    unfold fnSymbol
-    simp only [hD, if_true]
-    rw [hcls, hDD]
-    have hstat : o0.isStatic = (d.isStatic || (d.isInline && !d.isExtern)) := hff.1.symm
-    have hinl : o0.isInline = d.isInline := hff.2.symm
-    -- a class other than localIfNeeded is always needed
-    have halways : fnClassFirst (d :: rest) ≠ .localIfNeeded → (neededList ds).contains f = true := by
-      intro hne
-      have : f ∈ alwaysEmitted ds := by
-        unfold alwaysEmitted
-        rw [List.mem_filter]
-        refine ⟨hr, ?_⟩
-        rw [hD, hcls, hDD]
-        simpa using hne
-      simpa using u.always_needed this
-    simp only [fnClassFirst] at halways ⊢
-    rw [hstat]
-    generalize (d.isStatic || (d.isInline && !d.isExtern)) = sst at halways ⊢
-    generalize d.isInline = inl at halways ⊢
-    cases sst <;> cases inl
-    · have : f ∈ neededList ds := by simpa using halways (by simp)
-      simp [this]
-    · have : f ∈ neededList ds := by simpa using halways (by simp)
-      simp [this]
-    · have : f ∈ neededList ds := by simpa using halways (by simp)
-      simp [this]
-    · simp
+  have hr : f ∈ fnNames ds := firstFlags_isSome.mp (by rw [← fnFlags_isSome, hff]; rfl)
+  have hcls := u.class_flags hr hD hff
+  unfold fnSymbol
+  simp only [hD, if_true]
+  rw [← hcls]
+  -- a class other than localIfNeeded is always needed
+  have halways : classOf o0.isStatic o0.isInline ≠ .localIfNeeded → (neededList ds).contains f = true := by
+    intro hne
+    have : f ∈ alwaysEmitted ds := by
+      unfold alwaysEmitted
+      rw [List.mem_filter]
+      refine ⟨hr, ?_⟩
+      rw [hD, ← hcls]
+      simpa using hne
+    simpa using u.always_needed this
+  simp only [classOf] at halways ⊢
+  generalize o0.isStatic = sst at halways ⊢
+  generalize o0.isInline = inl at halways ⊢
+  cases sst <;> cases inl
+  · have : f ∈ neededList ds := by simpa using halways (by simp)
+    simp [this]
+  · have : f ∈ neededList ds := by simpa using halways (by simp)
+    simp [this]
+  · have : f ∈ neededList ds := by simpa using halways (by simp)
+    simp [this]
+  · simp
 
 end
 
